@@ -234,7 +234,7 @@ struct GlobBounds {
 fn glob_bounds(tier: Tier) -> GlobBounds {
     match tier {
         Tier::Quick => GlobBounds { wild: vec![(3, 3), (2, 4)], literal: vec![(3, 4)], content_rule_text_len: 2 },
-        Tier::Thorough => GlobBounds { wild: vec![(4, 3), (3, 5)], literal: vec![(4, 4), (3, 5)], content_rule_text_len: 2 },
+        Tier::Thorough => GlobBounds { wild: vec![(4, 3), (3, 4), (2, 5)], literal: vec![(4, 4), (3, 5)], content_rule_text_len: 2 },
     }
 }
 
@@ -889,6 +889,15 @@ fn part_b4(report: &Report) {
     let radices = [PERM_SENDERS.len(), PERM_ENTRY.len(), PERM_DEFAULT.len(), PERM_ROOM.len(), PERM_KEYS.len(), 2];
     engine::for_product(&radices, &mut |v| {
         let c: [usize; 6] = v.try_into().unwrap();
+        // the zones the reference leaves open (no power levels, another key, no valid sender) are
+        // visited once per sender, not once per level assignment
+        let [si, ei, di, ri, ki, has_power] = c;
+        if (has_power == 0 || ki == 1 || si >= 2) && (ei, di, ri) != (0, 0, 0) {
+            return;
+        }
+        if has_power == 0 && ki == 1 {
+            return;
+        }
         t.states += 1;
         let before = t.unspecified;
         let viol = perm_eval(c, &mut t);
@@ -950,12 +959,9 @@ fn menu_size(kind: usize, tier: Tier) -> usize {
         (0, Tier::Thorough) => 4,
         (4, Tier::Quick) => 2,
         (4, Tier::Thorough) => 3,
-        // the third content pattern has wildcards: a regex compilation per evaluation
-        (1, Tier::Quick) => 2,
-        (1, Tier::Thorough) => 3,
-        (2, _) => 2,
-        (_, Tier::Quick) => 2,
-        (_, Tier::Thorough) => 3,
+        // content: the two literal patterns (the wildcard pattern has its own product)
+        // room, sender: two ids
+        (_, _) => 2,
     }
 }
 
@@ -1230,12 +1236,11 @@ fn select_replay(case: &Value) -> Vec<(String, String)> {
     select_check(&env, ctx_idx, &rs, &refs, ei, &mut Tally::new(), &mut [0; 6])
 }
 
-fn part_c(report: &Report, tier: Tier) {
-    let ch: Vec<Vec<Choice>> = (0..5).map(|k| choices(menu_size(k, tier))).collect();
-    let envs: Vec<SelectEnv> = (0..CTXS.len()).map(select_env).collect();
-    let n_shards = ch[0].len() * CTXS.len();
+/// One product: every combination of the per-kind choices × events × the listed contexts.
+fn select_product(report: &Report, ch: &[Vec<Choice>], ctxs: &[usize], envs: &[SelectEnv]) {
+    let n_shards = ch[0].len() * ctxs.len();
     par_shards(report, n_shards, |shard, t| {
-        let (oi, ctx_idx) = (shard / CTXS.len(), shard % CTXS.len());
+        let (oi, ctx_idx) = (shard / ctxs.len(), ctxs[shard % ctxs.len()]);
         let env = &envs[ctx_idx];
         let mut counts = [0u64; 6];
         let mut rs = Ruleset::new();
@@ -1267,14 +1272,37 @@ fn part_c(report: &Report, tier: Tier) {
             t.outcome_n("select/matched-kind", if k < 5 { pm::KINDS[k] } else { "none" }, *n);
         }
     });
+}
+
+fn part_c(report: &Report, tier: Tier) {
+    let envs: Vec<SelectEnv> = (0..CTXS.len()).map(select_env).collect();
+    // main product: literal content patterns, both contexts
+    let ch: Vec<Vec<Choice>> = (0..5).map(|k| choices(menu_size(k, tier))).collect();
+    select_product(report, &ch, &[0, 1], &envs);
+    // second product: the content rule with a wildcard pattern (menu rule 2; ruma compiles a regex
+    // whenever it is evaluated) in every content choice that contains it, quick menus otherwise,
+    // first context
+    let mut wild: Vec<Vec<Choice>> = (0..5).map(|k| choices(menu_size(k, Tier::Quick))).collect();
+    wild[1] = choices(3).into_iter().filter(|c| c.iter().any(|&(idx, _)| idx == 2)).collect();
+    if tier.is_thorough() {
+        select_product(report, &wild, &[0], &envs);
+    }
     report.require_outcomes("select/matched-kind", 6);
+    let n = |c: &[Vec<Choice>]| c.iter().map(|c| c.len() as u64).product::<u64>();
     report.set(
         "rule_selection",
         json!({
-            "menu_sizes_per_kind": (0..5).map(|k| menu_size(k, tier)).collect::<Vec<_>>(),
-            "ordered_choices_per_kind": ch.iter().map(Vec::len).collect::<Vec<_>>(),
-            "rulesets": ch.iter().map(|c| c.len() as u64).product::<u64>(),
-            "events": EVENT_TAGS, "contexts": CTXS.len(),
+            "main_product": {
+                "menu_sizes_per_kind": (0..5).map(|k| menu_size(k, tier)).collect::<Vec<_>>(),
+                "ordered_choices_per_kind": ch.iter().map(Vec::len).collect::<Vec<_>>(),
+                "rulesets": n(&ch), "contexts": 2,
+            },
+            "wildcard_content_rule_product": if tier.is_thorough() {
+                json!({"ordered_choices_per_kind": wild.iter().map(Vec::len).collect::<Vec<_>>(), "rulesets": n(&wild), "contexts": 1})
+            } else {
+                json!("thorough tier only")
+            },
+            "events": EVENT_TAGS,
         }),
     );
 }
@@ -1458,10 +1486,12 @@ fn main() {
          B: every JSON object <= 4 nodes over keys {{a . \\ a.b a\\.b}} x 7 leaf kinds: FlattenedJson::get/get_str on \
          all reference paths + 56 fixed probe paths vs reference flatten; EventPropertyIs/Contains over 12 scalars x 36 \
          event values x 3 property names; RoomMemberCount 5 operators x counts 0..3 x thresholds 0..3 x struct/wire \
-         spellings; SenderNotificationPermission 4 senders x 5 users entries x 3 users_default x 3 notifications.room x \
-         2 keys x power levels present/absent. C: every ruleset with 0..2 ordered rules per kind from a per-kind menu \
-         (sizes {:?}) x enabled flags x 6 events x 2 contexts through get_match (and get_actions in the first context) vs first enabled rule \
-         in kind order whose reference conditions hold. D: nesting ladder 100..1000 and out-of-range numbers through \
+         spellings; SenderNotificationPermission 2 senders x 5 users entries x 3 users_default x 3 notifications.room \
+         (+ 10 cases without power levels / other key / missing or invalid sender, not compared). C: every ruleset with 0..2 ordered rules per kind from a per-kind menu \
+         (sizes {:?}; always-true, always-false, body-dependent, member-count + property conditions; literal content \
+         patterns; room / sender ids) x enabled flags x 6 events x 2 contexts through get_match (and get_actions in the \
+         first context) vs first enabled rule in kind order whose reference conditions hold; thorough tier also the \
+         product with a wildcard content pattern (b?ta*) in every content choice. D: nesting ladder 100..1000 and out-of-range numbers through \
          from_raw/get_match (no panic). state = one complete input (pair / object / condition case / (ruleset, event, \
          context)); transition = one call of real ruma code; non-trivial = a case with at least one entry point \
          whose answer the reference defines (not Unspecified)",
